@@ -333,3 +333,168 @@ Proof.
   destruct H as [(Fa & _ & _) _]. rewrite Forall_forall in Fa. apply (Fa (d, n) I).
 Qed.
 
+
+(* ------------------------------------------------------------------ giving up is never early *)
+(* every NACK TOO_MANY_RETRIES in the trace comes no earlier than T * 2^cnt after the last
+   transmission of that message (cnt = its counter then = max_retransmit, C06_one_outcome) *)
+Definition rt_giveup_ok (before : list rt_out) (o : rt_out) : Prop :=
+  match o with
+  | RoNack t u _ r _ c _ =>
+      r = rt_NACK_TOO_MANY_RETRIES ->
+      exists l tl T, rt_tproj u before = l ++ [(tl, c, T)] /\ tl + T * 2 ^ c <= t
+  | _ => True
+  end.
+Definition rt_giveups_ok (tr : list rt_out) : Prop :=
+  forall tr1 o tr2, tr = tr1 ++ o :: tr2 -> rt_giveup_ok tr1 o.
+
+Lemma rt_giveups_nil : rt_giveups_ok [].
+Proof. intros tr1 o tr2 E. destruct tr1; discriminate. Qed.
+
+Lemma rt_giveups_snoc : forall tr o, rt_giveups_ok tr -> rt_giveup_ok tr o -> rt_giveups_ok (tr ++ [o]).
+Proof.
+  intros tr o G Ho tr1 x tr2 E. apply app_eq_app in E. destruct E as [l [[E1 E2]|[E1 E2]]].
+  - destruct l as [|a l'].
+    + cbn in E2. inversion E2; subst. rewrite app_nil_r in Ho. exact Ho.
+    + cbn in E2. inversion E2; subst. apply (G tr1 a l' eq_refl).
+  - destruct l as [|a l'].
+    + cbn in E2. inversion E2; subst. rewrite app_nil_r. exact Ho.
+    + cbn in E2. inversion E2. destruct l'; discriminate.
+Qed.
+
+(* outputs that contain no give-up *)
+Definition rt_no_giveup (o : list rt_out) : Prop :=
+  Forall (fun x => match x with RoNack _ _ _ r _ _ _ => r <> rt_NACK_TOO_MANY_RETRIES | _ => True end) o.
+
+Lemma rt_giveups_app : forall o tr, rt_giveups_ok tr -> rt_no_giveup o -> rt_giveups_ok (tr ++ o).
+Proof.
+  induction o as [|x o IH]; intros tr G N; [rewrite app_nil_r; exact G|].
+  inversion N; subst. replace (tr ++ x :: o) with ((tr ++ [x]) ++ o) by (rewrite <- app_assoc; reflexivity).
+  apply IH; [|assumption]. apply rt_giveups_snoc; [exact G|].
+  destruct x; cbn; auto. intros E. contradiction.
+Qed.
+
+Lemma rt_no_giveup_acked : forall t rm, rt_no_giveup (map (fun n => RoAcked t (qn_uid n)) rm).
+Proof. intros. unfold rt_no_giveup. induction rm; cbn; constructor; auto. Qed.
+
+Lemma rt_retransmit_ginv : forall st n tr d,
+  rt_entry_ok tr (d, n) -> d <= rs_now st -> rt_giveups_ok tr ->
+  rt_giveups_ok (tr ++ snd (rt_retransmit st n)).
+Proof.
+  intros st n tr d (l & t & E & D) Due G. cbn [fst snd] in E, D.
+  unfold rt_retransmit. destruct (qn_cnt n <? qn_max n); cbn [snd].
+  - apply rt_giveups_app; [exact G|]. repeat constructor.
+  - apply rt_giveups_snoc; [exact G|]. cbn. intros _. exists l, t, (qn_timeout n). split; [exact E|lia].
+Qed.
+
+Lemma rt_fire_ginv : forall fuel st tr,
+  rt_rel tr (rs_uid st) (rt_nodes (rs_q st)) -> rt_sinv tr st -> rt_giveups_ok tr ->
+  rt_giveups_ok (tr ++ snd (rt_fire fuel st)).
+Proof.
+  induction fuel as [|f IH]; intros st tr R S G; cbn [rt_fire].
+  - cbn [snd]. apply rt_giveups_app; [exact G|]. destruct (rt_due st); repeat constructor.
+  - destruct (rt_due st) eqn:Du; [|cbn; rewrite app_nil_r; exact G].
+    destruct (rt_due_head st Du) as (t0 & n0 & rest & Q & Le).
+    rewrite Q. cbn [sq_pop].
+    destruct S as (F & C & Z0). rewrite Q in F. cbn [sq_abs] in F. inversion F as [|? ? He F']; subst.
+    assert (R' : rt_rel tr (rs_uid (rt_set_q st (sq_bump t0 rest))) (n0 :: rt_nodes (rs_q (rt_set_q st (sq_bump t0 rest))))).
+    { cbn [rt_set_q rs_uid rs_q]. rewrite rt_nodes_bump. rewrite Q in R. exact R. }
+    assert (S' : rt_sinv tr (rt_set_q st (sq_bump t0 rest))).
+    { split; [|split; [exact C|exact Z0]]. cbn [rt_set_q rs_base rs_q]. rewrite sq_abs_bump. exact F'. }
+    pose proof (rt_retransmit_sinv (rt_set_q st (sq_bump t0 rest)) n0 tr (rs_base st + t0) R' S' He Le) as H1.
+    pose proof (rt_retransmit_rel (rt_set_q st (sq_bump t0 rest)) n0 tr R') as H2.
+    pose proof (rt_retransmit_ginv (rt_set_q st (sq_bump t0 rest)) n0 tr (rs_base st + t0) He Le G) as H3.
+    destruct (rt_retransmit (rt_set_q st (sq_bump t0 rest)) n0) as [st1 o1]. destruct H2 as [R1 _].
+    cbn [snd] in H3. specialize (IH st1 (tr ++ o1) R1 H1 H3).
+    destruct (rt_fire f st1) as [st2 o2]. cbn [snd] in *. rewrite app_assoc. exact IH.
+Qed.
+
+Lemma rt_step_ginv : forall st ev tr,
+  rt_ev_ok ev -> rt_rel tr (rs_uid st) (rt_nodes (rs_q st)) -> rt_sinv tr st -> rt_giveups_ok tr ->
+  rt_giveups_ok (tr ++ snd (rt_step st ev)).
+Proof.
+  intros st ev tr Hev R S G. destruct ev as [dt|s m b cfg r| |s m|s m|s m tok|]; cbn [rt_step].
+  - cbn. rewrite app_nil_r. exact G.
+  - unfold rt_send. cbn [snd]. apply rt_giveups_app; [exact G|]. repeat constructor.
+  - unfold rt_tick, rt_fire_all.
+    pose proof (rt_fire_ginv (rt_budget (rs_q st)) st tr R S G) as H.
+    destruct (rt_fire (rt_budget (rs_q st)) st) as [st1 o]. destruct (rt_wait st1) as [w hd].
+    cbn [snd] in *. rewrite app_assoc. apply rt_giveups_app; [exact H|]. repeat constructor.
+  - unfold rt_ack, rt_fire_all. destruct (sq_remove (rs_q st) s m) as [[[t n] q']|] eqn:Rm.
+    + destruct (rt_nodes_remove _ _ _ _ _ _ Rm) as [P _].
+      destruct (sq_remove_others _ (rs_base st) _ _ _ _ _ Rm) as (l1 & l2 & d & E1 & E2 & _ & _).
+      set (o0 := [RoAcked (rs_now st) (qn_uid n)]).
+      assert (S1 : rt_sinv (tr ++ o0) (rt_set_q st q')).
+      { apply rt_sinv_no_tx; [intros u; reflexivity|]. apply rt_sinv_sub; [exact S|].
+        intros e I. rewrite E2 in I. rewrite E1. apply in_app_or in I. apply in_or_app.
+        destruct I; [left|right; right]; assumption. }
+      assert (R1 : rt_rel (tr ++ o0) (rs_uid st) (rt_nodes q')).
+      { eapply rt_rel_drop with (n := n) (tag := PAcked); [intros _; exact I| | |].
+        - cbn. rewrite Z.eqb_refl. reflexivity.
+        - intros u Hu. cbn. assert (X : (qn_uid n =? u) = false) by lia. rewrite X. reflexivity.
+        - eapply rt_rel_perm; [exact P|exact R]. }
+      assert (G1 : rt_giveups_ok (tr ++ o0)) by (apply rt_giveups_app; [exact G|repeat constructor]).
+      pose proof (rt_fire_ginv (rt_budget (rs_q (rt_set_q st q'))) (rt_set_q st q') _ R1 S1 G1) as H.
+      destruct (rt_fire _ (rt_set_q st q')) as [st1 o]. cbn [snd] in *. rewrite <- app_assoc in H. exact H.
+    + apply (rt_fire_ginv (rt_budget (rs_q st)) st tr R S G).
+  - unfold rt_rst, rt_fire_all. destruct (sq_remove (rs_q st) s m) as [[[t n] q']|] eqn:Rm.
+    + destruct (rt_nodes_remove _ _ _ _ _ _ Rm) as [P _].
+      destruct (sq_remove_others _ (rs_base st) _ _ _ _ _ Rm) as (l1 & l2 & d & E1 & E2 & _ & _).
+      set (o0 := [RoNack (rs_now st) (qn_uid n) (qn_sess n) rt_NACK_RST (qn_mid n) (qn_cnt n) (qn_max n)]).
+      assert (S1 : rt_sinv (tr ++ o0) (rt_set_q st q')).
+      { apply rt_sinv_no_tx; [intros u; reflexivity|]. apply rt_sinv_sub; [exact S|].
+        intros e I. rewrite E2 in I. rewrite E1. apply in_app_or in I. apply in_or_app.
+        destruct I; [left|right; right]; assumption. }
+      assert (R1 : rt_rel (tr ++ o0) (rs_uid st) (rt_nodes q')).
+      { eapply rt_rel_drop with (n := n) (tag := PNack rt_NACK_RST (qn_cnt n) (qn_max n));
+          [intros (A & B & M & O); cbn; repeat split; try lia; left; reflexivity| | |].
+        - cbn. rewrite Z.eqb_refl. reflexivity.
+        - intros u Hu. cbn. assert (X : (qn_uid n =? u) = false) by lia. rewrite X. reflexivity.
+        - eapply rt_rel_perm; [exact P|exact R]. }
+      assert (G1 : rt_giveups_ok (tr ++ o0)).
+      { apply rt_giveups_app; [exact G|]. constructor; [|constructor]. unfold rt_NACK_RST, rt_NACK_TOO_MANY_RETRIES. lia. }
+      pose proof (rt_fire_ginv (rt_budget (rs_q (rt_set_q st q'))) (rt_set_q st q') _ R1 S1 G1) as H.
+      destruct (rt_fire _ (rt_set_q st q')) as [st1 o]. cbn [snd] in *. rewrite <- app_assoc in H. exact H.
+    + set (o0 := [RoNackNoPdu (rs_now st) s rt_NACK_RST m]).
+      assert (S1 : rt_sinv (tr ++ o0) st) by (apply rt_sinv_no_tx; [intros u; reflexivity|exact S]).
+      assert (R1 : rt_rel (tr ++ o0) (rs_uid st) (rt_nodes (rs_q st)))
+        by (apply rt_rel_neutral; [intros u; reflexivity|exact R]).
+      assert (G1 : rt_giveups_ok (tr ++ o0)) by (apply rt_giveups_app; [exact G|repeat constructor]).
+      pose proof (rt_fire_ginv (rt_budget (rs_q st)) st _ R1 S1 G1) as H.
+      destruct (rt_fire (rt_budget (rs_q st)) st) as [st1 o]. cbn [snd] in *. rewrite <- app_assoc in H. exact H.
+  - unfold rt_non, rt_fire_all.
+    pose proof (rt_nodes_cancel (rt_tok_match s tok) (rs_q st)) as P.
+    pose proof (sq_abs_cancel (rt_tok_match s tok) (rs_q st) (rs_base st)) as [A _].
+    destruct (sq_cancel (rt_tok_match s tok) (rs_q st)) as [rm q']. cbn [fst snd] in *.
+    set (o0 := map (fun n => RoAcked (rs_now st) (qn_uid n)) rm).
+    assert (S1 : rt_sinv (tr ++ o0) (rt_set_q st q')).
+    { apply rt_sinv_no_tx; [apply rt_no_tx_acked|]. apply rt_sinv_sub; [exact S|].
+      intros e I. rewrite A in I. apply filter_In in I. tauto. }
+    assert (R1 : rt_rel (tr ++ o0) (rs_uid st) (rt_nodes q')).
+    { apply rt_rel_drop_acked. eapply rt_rel_perm; [exact P|exact R]. }
+    assert (G1 : rt_giveups_ok (tr ++ o0)) by (apply rt_giveups_app; [exact G|apply rt_no_giveup_acked]).
+    pose proof (rt_fire_ginv (rt_budget (rs_q (rt_set_q st q'))) (rt_set_q st q') _ R1 S1 G1) as H.
+    destruct (rt_fire _ (rt_set_q st q')) as [st1 o]. cbn [snd] in *. rewrite <- app_assoc in H. exact H.
+  - cbn [snd]. apply rt_giveups_app; [exact G|repeat constructor].
+Qed.
+
+Lemma rt_run_ginv : forall evs st tr,
+  Forall rt_ev_ok evs -> rt_rel tr (rs_uid st) (rt_nodes (rs_q st)) -> rt_sinv tr st ->
+  rt_giveups_ok tr -> rt_giveups_ok (tr ++ snd (rt_run st evs)).
+Proof.
+  induction evs as [|ev rest IH]; intros st tr F R S G; cbn [rt_run].
+  - cbn. rewrite app_nil_r. exact G.
+  - inversion F; subst. pose proof (rt_step_sinv st ev tr H1 R S) as HS.
+    pose proof (rt_step_rel st ev tr H1 R) as HR. pose proof (rt_step_ginv st ev tr H1 R S G) as HG.
+    destruct (rt_step st ev) as [st1 o1]. cbn [snd] in HG. specialize (IH st1 (tr ++ o1) H2 HR HS HG).
+    destruct (rt_run st1 rest) as [st2 o2]. cbn [snd] in *. rewrite app_assoc. exact IH.
+Qed.
+
+Theorem rt_giveup_not_early : forall t0 evs tr1 t u s m c mx tr2,
+  Forall rt_ev_ok evs ->
+  snd (rt_run (rt_init t0) evs) = tr1 ++ RoNack t u s rt_NACK_TOO_MANY_RETRIES m c mx :: tr2 ->
+  exists l tl T, rt_tproj u tr1 = l ++ [(tl, c, T)] /\ tl + T * 2 ^ c <= t.
+Proof.
+  intros t0 evs tr1 t u s m c mx tr2 F E.
+  pose proof (rt_run_ginv evs (rt_init t0) [] F rt_rel_init (rt_sinv_init t0) rt_giveups_nil) as G.
+  cbn [app] in G. specialize (G tr1 _ tr2 E). cbn in G. apply G. reflexivity.
+Qed.
